@@ -332,8 +332,9 @@ def parse_set_cookie_headers(headers: Sequence[str]) -> list[tuple[str, Morsel[s
                     if current_morsel is not None and current_morsel.isReservedKey(key):
                         current_morsel[lower_key] = True
                 elif value is None:
-                    # Invalid cookie string - non-boolean attribute without value
-                    break
+                    # Non-boolean attribute without value - ignore it (RFC 6265
+                    # 5.2), the attributes after it still apply
+                    continue
                 elif current_morsel is not None:
                     # Regular attribute with value
                     current_morsel[lower_key] = _unquote(value)
